@@ -45,7 +45,7 @@ MAIN = "main"
 PROBE_CODES = ("arg-type", "call-arg", "call-overload", "operator", "attr-defined", "union-attr", "index", "misc",
                "return-value", "assignment", "type-var", "valid-type", "name-defined", "override")
 Q_FILES = 12
-Q_ANCHORS = ("check-errorcodes.test", "check-ignore.test")  # always in the quick slice: the densest ignore/unused-ignore inputs
+Q_ANCHORS = ("check-errorcodes.test", "check-ignore.test", "check-overloading.test")  # always in the quick slice: densest ignore / unused-ignore / watcher-probe inputs
 Q_PER_FILE = 50
 MAX_FULL_SUBSETS = 5
 
